@@ -115,6 +115,9 @@ func TestC09(t *testing.T) {
 			continue
 		}
 		// YAML leg
+		if jt, err := jsonToTree(j1); err == nil && hasExcludedString(jt) {
+			continue
+		}
 		if hasMergeString(d.want) {
 			if what, ok := knownOpen("C09", "yaml-merge-string"); ok {
 				knownHits++
